@@ -225,7 +225,9 @@ func (c *c01) checkAll(salt int64) {
 	if n := len(h.log.segments); n > c.maxSegs {
 		c.maxSegs = n
 	}
-	if len(h.model) == 0 {
+	// (the mechanism "Truncate: ... clear newer leader epochs": the history must fit the records that are left)
+	h.epochCheck("C01/epochs", true)
+	if len(h.model) == 0 || h.stop {
 		return
 	}
 	h.readAll("C01/read", 0, false)
